@@ -30,17 +30,24 @@ LEAN_MODULE = "Basyx.Props.C01"
 LEVEL = "proof"
 
 MANIFEST = {
-    "text": "Lean theorems for ALL operation histories of an executable model of NamespaceSet / OrderedNamespaceSet, the "
-            "id_short / Qualifier.type / Extension.name / semantic_id setters and SubmodelElementList's hooks: the containment "
-            "invariant (keys unique per namespace, parent link <=> membership, backend key = current identifying attribute, order "
-            "list = duplicate-free permutation of the backend) holds initially and after every operation whether it returns or "
-            "raises; all views (iter/len/contains/index/lookup) agree under the invariant; single-element operations that raise "
-            "leave elements and sets unchanged. The model is tied to the code by a differential run comparing the complete public "
-            "view after every call.",
-    "note": "generated list idShorts (uuid) modelled as fresh counter values; AASd-107/108/109/114 hook decisions modelled on "
-            "abstract class/semantic-id/value-type tags; CPython dict/list semantics; harness/generators trusted",
-    "technique": "Lean 4 proof: invariant by induction over operations, view agreement and atomicity lemmas; differential "
-                 "correspondence with the Python classes after every call",
+    "text": "Lean theorems for ALL operation histories of an executable model of NamespaceSet / OrderedNamespaceSet (add, insert, "
+            "append, set[i], set[slice], del, remove, discard, pop, clear, extend, construction with rollback), the id_short / "
+            "Qualifier.type / Extension.name / semantic_id setters, the namespace level add/remove/get and SubmodelElementList's "
+            "hooks, over nine namespace kinds: the containment invariant (keys unique across all sets of a namespace, parent link "
+            "<=> membership, backend key = current identifying attribute, _order = duplicate-free permutation of the backend) holds "
+            "initially and after EVERY operation whether it returns or raises, hence in every reachable state; under it iteration, "
+            "len, membership, lookup by key, namespace getters and the positional view agree and show exactly the children; a "
+            "single-element insertion, replacement, removal or rename that raises leaves sets and elements unchanged. The model is "
+            "tied to the code by a differential run that compares the complete public view after every call; an independent oracle "
+            "states the property on the live objects.",
+    "note": "assumes fixes/C01-setitem-slice.patch (slice assignment materialises its iterable); generated list idShorts (uuid) "
+            "modelled as fresh counter values; AASd-107/108/109/114 hook decisions modelled on class/semantic-id/value-type tags; "
+            "rename atomicity of Qualifiers/Extensions under the side condition that their set has no list hooks; semantic_id "
+            "assignment is covered by the invariant but is not atomic (outside C01's clause); CPython dict/list semantics; "
+            "harness/generators trusted",
+    "technique": "Lean 4 proof: invariant by induction over operations (state-surgery lemmas + exact specs of the two base "
+                 "operations), view agreement and atomicity theorems; differential correspondence with the Python classes after "
+                 "every call; delta-debugged oracle failures as replays",
 }
 ASSUMPTIONS = [
     "uuid-based generated idShorts of SubmodelElementList children are fresh (modelled as a counter)",
@@ -399,10 +406,6 @@ class World:
                 nl.append(row)
             nv.append([n, sv, nl])
         return [ev, nv]
-
-
-def canon_model_view(v):
-    return v
 
 
 # ------------------------------------------------------------------------------------------- generator
@@ -904,8 +907,8 @@ def minimise(f: C.Failing) -> C.Failing:
 # ------------------------------------------------------------------------------------------- entry points
 
 def _budget(tier: str) -> Tuple[int, int]:
-    """(histories, max ops per history): about 3k ops quick, about 200k ops thorough"""
-    return (170, 32) if tier == "quick" else (1000, 300)
+    """(histories, max ops per history): about 9k ops quick, about 195k ops thorough"""
+    return (300, 40) if tier == "quick" else (1000, 300)
 
 
 DIRECTED = [
